@@ -347,3 +347,113 @@ func genCase(rng *rand.Rand, n int, seed int64, pf Profile) *CaseDesc {
 	}
 	return c
 }
+
+// genEditCase: chains whose providers are all `func(T0) T0` (so any order binds and the trace
+// shows the order), with names and named-edit directives sprinkled on them.
+func genEditCase(rng *rand.Rand, n int, seed int64) *CaseDesc {
+	c := &CaseDesc{N: n, Seed: seed, Shape: "flat", InvIn: []int{0}, InvOut: []int{0}}
+	L := 2 + rng.Intn(6)
+	names := []string{"A", "B", "C"}
+	for i := 0; i < L; i++ {
+		p := &ProvDesc{Idx: i, Kind: "inj", In: []int{0}, Out: []int{0}}
+		if chance(rng, 0.4) {
+			p.Name = names[rng.Intn(len(names))]
+		}
+		if chance(rng, 0.35) {
+			tgt := names[rng.Intn(2)]
+			if chance(rng, 0.06) {
+				tgt = "Z"
+			}
+			switch rng.Intn(3) {
+			case 0:
+				p.Replace = tgt
+			case 1:
+				p.Before = tgt
+			case 2:
+				p.After = tgt
+			}
+			if chance(rng, 0.03) {
+				p.Before = names[rng.Intn(len(names))]
+				p.After = names[rng.Intn(len(names))]
+			}
+		}
+		if chance(rng, 0.05) {
+			p.NonFinal = true
+		}
+		c.Provs = append(c.Provs, p)
+	}
+	// make runs of equal directives / equal names more likely (blocks)
+	for i := 1; i < L; i++ {
+		if chance(rng, 0.3) {
+			q, p := c.Provs[i-1], c.Provs[i]
+			p.Replace, p.Before, p.After = q.Replace, q.Before, q.After
+		}
+		if chance(rng, 0.25) {
+			c.Provs[i].Name = c.Provs[i-1].Name
+		}
+	}
+	// self-targets are an error class of their own: keep only a few
+	for _, p := range c.Provs {
+		if p.Name != "" && (p.Replace == p.Name || p.Before == p.Name || p.After == p.Name) && chance(rng, 0.9) {
+			p.Name = ""
+		}
+	}
+	// most targets should exist exactly once
+	for _, nm := range names[:2] {
+		used := false
+		for _, p := range c.Provs {
+			if p.Replace == nm || p.Before == nm || p.After == nm {
+				used = true
+			}
+		}
+		have := false
+		for _, p := range c.Provs {
+			if p.Name == nm {
+				have = true
+			}
+		}
+		if used && !have && chance(rng, 0.9) {
+			c.Provs[rng.Intn(L)].Name = nm
+		}
+	}
+	c.Ops = []Op{{Kind: "invoke"}}
+	return c
+}
+
+// allEditCases enumerates every list of length 1..maxLen over origins {none,A,B} and directives
+// {none, rep/bef/aft × A,B}.
+func allEditCases(maxLen int, f func(*CaseDesc)) {
+	origins := []string{"", "A", "B"}
+	type dir struct{ r, b, a string }
+	dirs := []dir{{}, {r: "A"}, {b: "A"}, {a: "A"}, {r: "B"}, {b: "B"}, {a: "B"}}
+	per := len(origins) * len(dirs)
+	n := 0
+	for L := 1; L <= maxLen; L++ {
+		total := 1
+		for i := 0; i < L; i++ {
+			total *= per
+		}
+		for code := 0; code < total; code++ {
+			c := &CaseDesc{N: n, Shape: "flat", InvIn: []int{0}, InvOut: []int{0}, Ops: []Op{{Kind: "invoke"}}}
+			x := code
+			any := false
+			for i := 0; i < L; i++ {
+				k := x % per
+				x /= per
+				d := dirs[k/len(origins)]
+				p := &ProvDesc{Idx: i, Kind: "inj", In: []int{0}, Out: []int{0}, Name: origins[k%len(origins)],
+					Replace: d.r, Before: d.b, After: d.a}
+				if d != (dir{}) {
+					any = true
+				}
+				c.Provs = append(c.Provs, p)
+			}
+			if !any {
+				continue
+			}
+			n++
+			c.N = n
+			f(c)
+		}
+	}
+}
